@@ -27,6 +27,10 @@ type PathQuery struct {
 	// path-insensitive phases the view is empty and answers "unknown".
 	GoalP func(ssa.Instruction, PathView) bool
 	Prune func(from, to *ssa.BasicBlock) bool
+	// PruneFact is Prune phrased over the condition the edge carries. In the
+	// path-sensitive phase a condition that is a phi (what `if pred()` leaves
+	// once pred is inlined) is resolved to the operand the path selected.
+	PruneFact func(Fact) bool
 	// Assume gives known truth values of boolean SSA values. Branches whose
 	// condition evaluates (through negation, constants, and phis resolved
 	// along the path walked) to a known value are only followed on the
@@ -88,6 +92,45 @@ func (pv PathView) NilKnown(v ssa.Value) (isNil, known bool) {
 	return false, false
 }
 
+// EdgeFact is the fact of edge from->to with its condition resolved through
+// negations and phis along the path walked (from is the block the view ends
+// in).
+func (pv PathView) EdgeFact(from, to *ssa.BasicBlock) (Fact, bool) {
+	f, ok := EdgeFact(from, to)
+	if !ok || pv.q == nil {
+		return f, ok
+	}
+	cond, pol := f.Cond, f.Pol
+	for k := 0; k < 12; k++ {
+		if u, isU := cond.(*ssa.UnOp); isU && u.Op == token.NOT {
+			cond, pol = u.X, !pol
+			continue
+		}
+		if _, isPhi := cond.(*ssa.Phi); isPhi {
+			r := pv.q.resolvePhi(cond, pv.n, 0)
+			if r == nil || r == cond {
+				break
+			}
+			cond = r
+			continue
+		}
+		break
+	}
+	f.Cond, f.Pol = cond, pol
+	return f, true
+}
+
+// PathFact reports whether some branch edge passed on the path walked
+// satisfies pred.
+func (pv PathView) PathFact(pred func(Fact) bool) bool {
+	for m := pv.n; m != nil && m.prev != nil; m = m.prev {
+		if f, ok := EdgeFact(m.prev.b, m.b); ok && pred(f) {
+			return true
+		}
+	}
+	return false
+}
+
 type pnode struct {
 	b    *ssa.BasicBlock
 	prev *pnode
@@ -143,22 +186,23 @@ func (q PathQuery) evalBool(v ssa.Value, n *pnode, depth int) (val, known bool) 
 				r, k := q.evalBool(x.Y, n, depth+1)
 				return (r == cb) == (x.Op == token.EQL), k
 			}
+			// two strings that are constants on this path (a named result still
+			// holding its zero value)
+			if sx, okx := ConstStr(q.resolvePhi(x.X, n, 0)); okx {
+				if sy, oky := ConstStr(q.resolvePhi(x.Y, n, 0)); oky {
+					return (sx == sy) == (x.Op == token.EQL), true
+				}
+			}
 			if IsNilConst(x.Y) {
 				if q.NonNil[x.X] {
 					return x.Op == token.NEQ, true
 				}
-				if rv, pos := q.resolvePhiAt(x.X, n, 0); rv != nil {
-					if IsNilConst(rv) {
-						return x.Op == token.EQL, true
-					}
-					if q.nonNilValue(rv, 0) {
-						return x.Op == token.NEQ, true
-					}
-					// the same value was already tested on the way here (typically by an
-					// inlined helper that then returned it): the second test agrees
-					if isNil, known := pathNilFact(rv, pos); known {
-						return isNil == (x.Op == token.EQL), true
-					}
+				// the operand the path selected: nil or not by construction, or the
+				// same value was already tested on the way here (typically by an
+				// inlined helper that then returned it, possibly wrapped): the second
+				// test agrees
+				if isNil, known := (PathView{q: &q, n: n}).NilKnown(x.X); known {
+					return isNil == (x.Op == token.EQL), true
 				}
 			}
 		}
@@ -314,6 +358,9 @@ func staticLen(v ssa.Value) (int64, bool) {
 	}
 	if sl, ok := v.(*ssa.Slice); ok && sl.Low == nil && sl.High == nil {
 		return staticLen(sl.X)
+	}
+	if _, isSl := t.(*types.Slice); isSl && IsNilConst(v) {
+		return 0, true // no variadic arguments / a nil list
 	}
 	if ms, ok := v.(*ssa.MakeSlice); ok {
 		return func() (int64, bool) { c, ok := ConstInt(ms.Len); return c, ok }()
@@ -523,6 +570,11 @@ func (q PathQuery) Find() []ssa.Instruction {
 			if q.Prune != nil && q.Prune(n.b, s) {
 				continue
 			}
+			if q.PruneFact != nil {
+				if f, ok := (PathView{q: &q, n: n}).EdgeFact(n.b, s); ok && q.PruneFact(f) {
+					continue
+				}
+			}
 			if ifi != nil && len(n.b.Succs) == 2 && n.b.Succs[0] != n.b.Succs[1] {
 				if v, known := q.evalCond(ifi.Cond, n); known && v != (si == 0) {
 					continue
@@ -604,6 +656,11 @@ func (q PathQuery) bfs(start *pnode, scan func(*pnode, int, bool) (ssa.Instructi
 		for _, s := range n.b.Succs {
 			if q.Prune != nil && q.Prune(n.b, s) {
 				continue
+			}
+			if q.PruneFact != nil {
+				if f, ok := EdgeFact(n.b, s); ok && q.PruneFact(f) {
+					continue
+				}
 			}
 			k := key{s, n.b}
 			if seen[k] {
